@@ -1044,11 +1044,45 @@ func (vm *VM) lookup(fr *frame, in *ssa.Lookup) Value {
 func (vm *VM) sliceOp(fr *frame, in *ssa.Slice) Value {
 	x := vm.get(fr, in.X)
 	var lo, hi, max = 0, -1, -1
+	// a symbolic bound is settled by forking over the possible values 0..capacity
+	// (a value outside that range takes the out-of-range path and panics like the real code)
+	bound := func(v Value, what string) int {
+		t, isT := v.(*smt.Term)
+		if !isT || t.Op == smt.OpIntConst {
+			return vm.concInt(v, what)
+		}
+		c := 0
+		switch a := x.(type) {
+		case Slice:
+			c = cap(a)
+		case string, *SymStr:
+			if hasDec(atomsOf(a)) {
+				vmErr("symbolic slice bound on a string with decimal atoms (%s)", what)
+			}
+			c = strLen(a)
+		case *Value:
+			if a != nil {
+				if arr, ok := (*a).(Array); ok {
+					c = len(arr)
+				}
+			}
+		}
+		if c > 64 {
+			vmErr("symbolic integer where a concrete one is required (%s): %s", what, t.String())
+		}
+		if vm.Decide(smt.Lt(t, smt.Int64(0))) {
+			return -1 << 30
+		}
+		if vm.Decide(smt.Lt(smt.Int64(int64(c)), t)) {
+			return 1 << 30
+		}
+		return int(vm.ConcretizeInt(t, 0, int64(c)))
+	}
 	if in.Low != nil {
-		lo = vm.concInt(vm.get(fr, in.Low), "slice low at "+vm.posOf(in))
+		lo = bound(vm.get(fr, in.Low), "slice low at "+vm.posOf(in))
 	}
 	if in.High != nil {
-		hi = vm.concInt(vm.get(fr, in.High), "slice high at "+vm.posOf(in))
+		hi = bound(vm.get(fr, in.High), "slice high at "+vm.posOf(in))
 	}
 	if in.Max != nil {
 		max = vm.concInt(vm.get(fr, in.Max), "slice max")
@@ -1058,8 +1092,16 @@ func (vm *VM) sliceOp(fr *frame, in *ssa.Slice) Value {
 	}
 	switch a := x.(type) {
 	case string, *SymStr:
+		if ss, isSym := a.(*SymStr); isSym && hasDec(ss.Atoms) {
+			// positions are concrete only before the first decimal atom: s[lo:hi] with both there,
+			// and s[lo:] with lo there, need no length
+			if v, ok := sliceBeforeDec(ss.Atoms, lo, hi, in.High != nil); ok {
+				return v
+			}
+			vmErr("slice of a string containing a decimal atom outside its concrete prefix (%s)", vm.posOf(in))
+		}
 		n := strLen(a)
-		if hi < 0 {
+		if in.High == nil {
 			hi = n
 		}
 		if lo < 0 || hi > n || lo > hi {
@@ -1067,10 +1109,10 @@ func (vm *VM) sliceOp(fr *frame, in *ssa.Slice) Value {
 		}
 		return strSlice(a, lo, hi)
 	case Slice:
-		if hi < 0 {
+		if in.High == nil {
 			hi = len(a)
 		}
-		if max < 0 {
+		if in.Max == nil {
 			max = cap(a)
 		}
 		if lo < 0 || hi > cap(a) || lo > hi || max > cap(a) || hi > max {
@@ -1085,10 +1127,10 @@ func (vm *VM) sliceOp(fr *frame, in *ssa.Slice) Value {
 			vm.goPanic("runtime error: invalid memory address or nil pointer dereference")
 		}
 		arr := (*a).(Array)
-		if hi < 0 {
+		if in.High == nil {
 			hi = len(arr)
 		}
-		if max < 0 {
+		if in.Max == nil {
 			max = len(arr)
 		}
 		if lo < 0 || hi > len(arr) || lo > hi || max > len(arr) || hi > max {
